@@ -1153,6 +1153,9 @@ class Interp:
                 self.assign(ctx, s.target, self.eval(ctx, s.value, env, fi), env, fi)
             return
         if isinstance(s, ast.AugAssign):
+            hook = getattr(self, "augassign_hook", None)
+            if hook is not None and hook(ctx, s, env, fi):
+                return
             cur = self.eval(ctx, ast.Name(id=s.target.id, ctx=ast.Load()), env, fi) if isinstance(s.target, ast.Name) else None
             if cur is None:
                 raise Unsupported("augassign target")
@@ -1327,13 +1330,13 @@ class Interp:
             c = self.eval(ctx, e.test, env, fi)
             return self.eval(ctx, e.body if self.truth(ctx, c) else e.orelse, env, fi)
         if isinstance(e, ast.Call):
-            if any(isinstance(a, ast.Starred) for a in e.args) or any(k.arg is None for k in e.keywords):
-                raise Unsupported("star args")
             hook = getattr(self, "call_hook", None)
             if hook is not None:
                 r = hook(ctx, e, env, fi)
                 if r is not None:
                     return r
+            if any(isinstance(a, ast.Starred) for a in e.args) or any(k.arg is None for k in e.keywords):
+                raise Unsupported("star args")
             f = self.eval(ctx, e.func, env, fi)
             args = [self.eval(ctx, a, env, fi) for a in e.args]
             kwargs = {k.arg: self.eval(ctx, k.value, env, fi) for k in e.keywords}
